@@ -608,8 +608,9 @@ func encodeUTF8AddrXtext(raw string) string {
 
 	for _, ch := range raw {
 		switch {
-		case ch >= '!' && ch <= '~' && ch != '+' && ch != '=':
-			// printable non-space US-ASCII except '+' and '='
+		case ch >= '!' && ch <= '~' && ch != '+' && ch != '=' && ch != '\\':
+			// printable non-space US-ASCII except '+', '=' and '\\'
+			// (QCHAR in RFC 6533: the backslash introduces an embedded character)
 			out.WriteRune(ch)
 		default:
 			out.WriteRune('\\')
@@ -629,7 +630,7 @@ func encodeUTF8AddrUnitext(raw string) string {
 
 	for _, ch := range raw {
 		switch {
-		case ch >= '!' && ch <= '~' && ch != '+' && ch != '=':
+		case ch >= '!' && ch <= '~' && ch != '+' && ch != '=' && ch != '\\':
 			// printable non-space US-ASCII except '+' and '='
 			out.WriteRune(ch)
 		case ch <= '\x7F':
